@@ -1,10 +1,10 @@
 (* C12 — flat-integer interface of the model for the correspondence check.
-   input : nsf :: n :: off :: W :: version :: meta_ns     (file length, init_params(nsamples) or nsf, _process_NP21 offset or 0)
+   input : nsf :: n :: off :: W :: version :: meta_ns :: nominal     (file length, init_params(nsamples) or nsf, _process_NP21 offset or 0)
            :: acq0 :: acq1 :: acq2 :: sns0 :: sns1 :: sns2 :: nsaved :: fsize :: rate :: subset_hi
            :: k :: sh_1 .. sh_k                 (shanks processed, in order)
            :: shank of every site (rest of the list)
    output: 0                                    (the conversion raises)
-         | 1 :: nrows :: enc(positions) ++ k ++ for each processed shank:
+         | 1 :: (meta_ns_nominal nsf if nominal = 1 else meta_ns) :: nrows :: enc(positions) ++ k ++ for each processed shank:
              enc(chns) ++ [acq0;acq1;acq2;sns0;sns1;sns2;nsaved;fsize;rate;subset_hi]
              ++ enc(subset_orig) ++ [original_meta; shank_key; nbytes; nc; fs; is_lf; nsync; ns_open; fudged] *)
 From Coq Require Import ZArith List Bool.
@@ -26,7 +26,7 @@ Definition enc_file_f (meta_ns : Z) (f : list Z * meta * Z * (Z * Z * bool * Z *
 
 Definition run (inp : list Z) : list Z :=
   match inp with
-  | nsf :: ns :: off :: W :: version :: meta_ns
+  | nsf :: ns :: off :: W :: version :: meta_ns :: nominal
     :: a0 :: a1 :: a2 :: s0 :: s1 :: s2 :: nsv :: fsz :: rt :: shi :: k :: rest =>
       let shs := firstn (Z.to_nat k) rest in
       let shanks := skipn (Z.to_nat k) rest in
@@ -35,7 +35,7 @@ Definition run (inp : list Z) : list Z :=
                   subset_orig := []; original_meta := true; shank_key := -1 |} in
       match lf_nsamples_off nsf off ns W, lf_positions_off nsf off ns W with
       | Some n, Some ps =>
-          1 :: n :: enc_zlist ps
+          1 :: (if nominal =? 1 then meta_ns_nominal nsf else meta_ns) :: n :: enc_zlist ps
             ++ enc_list (fun sh => enc_file_f meta_ns (lf_file version m shanks n meta_ns sh)) shs
       | _, _ => [0]
       end
